@@ -148,6 +148,13 @@ YR_API int yr_rules_define_string_variable(
           external->type != EXTERNAL_VARIABLE_TYPE_MALLOC_STRING)
         return ERROR_INVALID_EXTERNAL_VARIABLE_TYPE;
 
+      // Duplicate the new value first, if that fails the variable keeps its
+      // current value instead of being left with a NULL string.
+      char* new_value = yr_strdup(value);
+
+      if (new_value == NULL)
+        return ERROR_INSUFFICIENT_MEMORY;
+
       if (external->type == EXTERNAL_VARIABLE_TYPE_MALLOC_STRING &&
           external->value.s != NULL)
       {
@@ -155,12 +162,9 @@ YR_API int yr_rules_define_string_variable(
       }
 
       external->type = EXTERNAL_VARIABLE_TYPE_MALLOC_STRING;
-      external->value.s = yr_strdup(value);
+      external->value.s = new_value;
 
-      if (external->value.s == NULL)
-        return ERROR_INSUFFICIENT_MEMORY;
-      else
-        return ERROR_SUCCESS;
+      return ERROR_SUCCESS;
     }
 
     external++;
